@@ -36,6 +36,7 @@
 //	srv.ResetLog()
 //	srv.SetDB(db)                swap the database (requests in flight keep the old one)
 //	srv.SetFixtures(fx)          swap the fixtures
+//	srv.SetTenantDB("a", db)     serve db to requests carrying the header X-Scope-OrgID: a (multi-tenant upstream)
 //	srv.CloseClientConnections() drop idle keep-alive connections (call after every lint run, see the method)
 //	promsrv.Shared()             one lazily started server per process, never closed: property tests that run
 //	                             thousands of cases should reuse it (SetDB + ResetLog per case) instead of opening a
@@ -440,6 +441,7 @@ type Request struct {
 	End    float64 `json:"end,omitempty"`
 	Step   float64 `json:"step,omitempty"`
 	Metric string  `json:"metric,omitempty"`
+	Tenant string  `json:"tenant,omitempty"` // value of the X-Scope-OrgID header
 	Code   int     `json:"code"`
 	Series int     `json:"series"` // number of series in the answer
 	Points int     `json:"points"` // number of points in the answer
@@ -457,6 +459,26 @@ type Server struct {
 	fx  Fixtures
 	log []Request
 	hs  *httptest.Server
+	// tenants: databases served to requests carrying the TenantHeader with the given value
+	tenants map[string]storage.Queryable
+}
+
+// TenantHeader selects a tenant database (multi-tenant Mimir / Cortex style).
+const TenantHeader = "X-Scope-OrgID"
+
+// SetTenantDB serves db to requests whose X-Scope-OrgID header equals tenant (requests without the header, or
+// with an unknown value, get the default database). SetTenantDB(tenant, nil) removes the tenant.
+func (s *Server) SetTenantDB(tenant string, db *DB) {
+	s.mu.Lock()
+	defer s.mu.Unlock()
+	if db == nil {
+		delete(s.tenants, tenant)
+		return
+	}
+	if s.tenants == nil {
+		s.tenants = map[string]storage.Queryable{}
+	}
+	s.tenants[tenant] = db.Queryable()
 }
 
 // New starts a server on a loopback port.
@@ -535,9 +557,12 @@ func (s *Server) record(r Request) {
 	s.mu.Unlock()
 }
 
-func (s *Server) snapshot() (storage.Queryable, Fixtures) {
+func (s *Server) snapshot(tenant string) (storage.Queryable, Fixtures) {
 	s.mu.Lock()
 	defer s.mu.Unlock()
+	if q, ok := s.tenants[tenant]; ok && tenant != "" {
+		return q, s.fx
+	}
 	return s.q, s.fx
 }
 
@@ -574,7 +599,8 @@ func (s *Server) fail(w http.ResponseWriter, rq *Request, code int, typ, msg str
 
 func (s *Server) serve(w http.ResponseWriter, r *http.Request) {
 	rq := Request{Method: r.Method, Path: r.URL.Path}
-	q, fx := s.snapshot()
+	rq.Tenant = r.Header.Get(TenantHeader)
+	q, fx := s.snapshot(rq.Tenant)
 	switch r.URL.Path {
 	case "/api/v1/query":
 		s.serveQuery(w, r, &rq, q)
